@@ -55,6 +55,10 @@ func Trouble(format string, a ...any) {
 // TransientCrashes counts worker deaths of this check that did not reproduce.
 var TransientCrashes int
 
+// SiteOrderVariations: re-executed runs of the determinism self-test that
+// took the same decisions but logged their sites in a different order.
+var SiteOrderVariations int
+
 // AutoYields is the number of scheduling points the last Build inserted.
 var AutoYields int
 
@@ -447,7 +451,7 @@ func Check(tier, id string) int {
 	buildS := time.Since(t0).Seconds()
 
 	a := newAgg()
-	detPairs, detMismatch := 0, []string{}
+	detPairs, detMismatch, detFineOnly := 0, []string{}, 0
 	for _, sc := range p.Scenarios {
 		if only := os.Getenv("VERIF_SCEN"); only != "" && only != sc.Name {
 			continue // debugging aid: restrict the check to one scenario family
@@ -476,10 +480,15 @@ func Check(tier, id string) int {
 			Trouble("%s", r.trouble)
 		}
 		// determinism self-test on a sample of this scenario's runs
-		n, mm := determinism(p, sc, bins[sc.Race], seed, tier, det, r.next, a)
+		n, mm, fo := determinism(p, sc, bins[sc.Race], seed, tier, det, r.next, a)
 		detPairs += n
 		detMismatch = append(detMismatch, mm...)
+		detFineOnly += fo
 	}
+	if detFineOnly > 0 {
+		fmt.Printf("note: %d re-executed runs took the same decisions but passed their scheduling points in a different order inside a task (library-internal map iteration order; not a verdict)\n", detFineOnly)
+	}
+	SiteOrderVariations = detFineOnly
 	if len(detMismatch) > 0 && len(a.violations) == 0 {
 		// (a program with a data race is not deterministic; when the runs
 		// themselves reported violations those are the verdict)
@@ -603,14 +612,25 @@ func Check(tier, id string) int {
 
 // determinism re-executes a sample of runs in fresh processes at other
 // GOMAXPROCS values and compares signature, log hash and violation class.
-func determinism(p PropCfg, sc ScenCfg, bin string, seed int64, tier string, n, upto int, extra *agg) (int, []string) {
+//
+// What must agree: the case executed and the scheduler's decision log
+// (Result.DetHash: who was runnable and who was released at every step) - or,
+// for scenarios without a scheduler, signature and log hash - and the
+// violation class. For scheduled scenarios the finer event log (which sites
+// each task passed through, in which order) is compared as well, but a
+// difference there alone is counted (third return value) and reported, not
+// treated as trouble: the order of two scheduling points inside one task can
+// follow Go map iteration order inside the library (benign change C01-g3:
+// attribute names interned through a sync.Map while ranging over a caller's
+// map), which no seam controls and which changes no decision.
+func determinism(p PropCfg, sc ScenCfg, bin string, seed int64, tier string, n, upto int, extra *agg) (int, []string, int) {
 	if n <= 0 || upto <= 0 {
-		return 0, nil
+		return 0, nil, 0
 	}
 	if n > upto {
 		n = upto
 	}
-	type key struct{ sig, log, class string }
+	type key struct{ det, fine, class string }
 	get := func(procs, slot int) map[int]key {
 		out := map[int]key{}
 		from := 0
@@ -626,7 +646,11 @@ func determinism(p PropCfg, sc ScenCfg, bin string, seed int64, tier string, n, 
 					extra.violations = append(extra.violations, r)
 					extra.mu.Unlock()
 				}
-				out[r.Run] = key{r.Result.Sig, r.Result.LogHash, c}
+				k := key{det: r.Result.DetHash, fine: r.Result.Sig + " " + r.Result.LogHash, class: c}
+				if k.det == "" {
+					k.det = k.fine
+				}
+				out[r.Run] = k
 				last = r.Run
 			}
 			if code == 0 {
@@ -652,7 +676,7 @@ func determinism(p PropCfg, sc ScenCfg, bin string, seed int64, tier string, n, 
 	}
 	wg.Wait()
 	var mm []string
-	pairs := 0
+	pairs, fineOnly := 0, 0
 	for run := 0; run < n; run++ {
 		a, b, c := res[0][run], res[1][run], res[2][run]
 		pairs += 2
@@ -661,11 +685,14 @@ func determinism(p PropCfg, sc ScenCfg, bin string, seed int64, tier string, n, 
 			// re-executions' records were added to the aggregate)
 			continue
 		}
-		if a != b || a != c {
+		switch {
+		case a.det != b.det || a.det != c.det:
 			mm = append(mm, fmt.Sprintf("  %s/%s seed=%d run=%d: GOMAXPROCS=1 %v | 4 %v | 16 %v", p.ID, sc.Name, seed, run, a, b, c))
+		case a.fine != b.fine || a.fine != c.fine:
+			fineOnly++
 		}
 	}
-	return pairs, mm
+	return pairs, mm, fineOnly
 }
 
 // minimiseAndConfirm shrinks a failing record, writes the replay file and
